@@ -39,7 +39,12 @@ RULE = ("cases: (a) every request path of depth <= d (quick 3, thorough 4) over 
         "percent sign or a name starting with two dots")
 TRUSTED = ["Lib/Path.v as a transcription of CPython 3.12 posixpath (validated against os.path on every run)",
            "the recording of file-system accesses (os.stat/os.lstat wrappers + the 'open', 'os.listdir', 'os.scandir' audit events)",
-           "the file system as a function of the absolute path text, constant during one request"]
+           "the file system as a function of the absolute path text, constant during one request",
+           "source-level tie for BaseFiles.ensure_absolute_path: tools/py2coq_c07.py (Python ast -> Gallina, fail-closed; "
+           "os.path.join / abspath / relpath are mapped to Lib/Path.v with os.getcwd() an argument, guarded by the check that "
+           "`os` is the module of the one plain `import os` and os.path is posixpath; self.directory is an argument of type "
+           "str) and C07/PyLib.v + the PyStr functions as the meaning of os.path.join(*l), os.pardir, os.sep, split, ==, "
+           "startswith (compared with the interpreter inside coqc on every run)"]
 ASSUMPTIONS = ["the directory handed to the decision procedure is a normalised absolute path other than '/' or '//' "
                "(what normalize_dir_path returns; proved for every working directory that is absolute)",
                "request paths contain no '?' or '#' (the rebuilt URL re-splits them: known finding of C18) and script name / root path are empty (C09)",
@@ -825,6 +830,22 @@ def shrink(case):
         for i in range(len(segs)):
             if len(segs[i]) > 8:
                 yield ["req", kind, iface, li, dm, ["/".join(segs[:i] + [segs[i][:len(segs[i]) // 2]] + segs[i + 1:])]]
+
+
+# ---------------------------------------------------------------- the source-level tie (tools/py2coq_c07.py)
+
+
+def extra_obligations(tier):
+    """BaseFiles.ensure_absolute_path is translated to Gallina from the source in BAIZE_REPO as it is now (os.path.* =
+    Lib/Path.v, the working directory and self.directory arguments), and coqc re-checks C07/Translated.v (translated
+    method = C07.Model.ensure_files, for every working directory, directory and request path) against the fresh definition;
+    C07/PyLib.v and the PyStr functions the translation is made of are compared with the interpreter's own os.path / str.
+    A source the translator refuses is not applicable (None)."""
+    import importlib.util
+    spec = importlib.util.spec_from_file_location("py2coq_c07", os.path.join(core.VERIF, "tools", "py2coq_c07.py"))
+    tr = importlib.util.module_from_spec(spec)
+    spec.loader.exec_module(tr)
+    return list(tr.obligations(core.REPO, core.VERIF))
 
 
 if __name__ == "__main__":
